@@ -121,11 +121,14 @@ impl Prop for C08 {
     fn cases(&self, tier: Tier, build: &str) -> u32 {
         match (tier, build) {
             (Tier::Quick, "fast") => 48_000,
+            (Tier::Quick, "asan") => 4_000,
             (Tier::Quick, _) => 18_000,
             (Tier::Thorough, "fast") => 240_000,
+            (Tier::Thorough, "asan") => 30_000,
             (Tier::Thorough, _) => 60_000,
         }
     }
+    fn builds(&self, _tier: Tier) -> Vec<&'static str> { vec!["fast", "checked", "asan"] }
     fn rule(&self) -> &'static str {
         "cases = operation histories over BitVectorMut (start: new/default/with_capacity/with_zeros/collect of bools or positions; ops: push, push runs, append_bits, extend_with_zeros, set, set_bits, extend with bools, extend with positions, into BitVector and back, clone, rebuild from iter, shrink_to_fit), all arguments constructed inside the documented preconditions; non-trivial = a set/set_bits that overwrites at least one 1 bit or an extend-with-positions into the interior, and final length > 64; distinct = hash of the history"
     }
